@@ -295,7 +295,7 @@ impl Prop for C18 {
         24
     }
     fn cases(&self, t: Tier) -> usize {
-        t.pick(40_000, 2_000_000)
+        t.pick(400_000, 10_000_000)
     }
     fn rule(&self) -> String {
         "tape-decoded cases of five kinds (generate at a chosen generator state x interval class; purity of the sequence; shuffle with seeds of all magnitudes and lengths 0..1500 with duplicates; Tensor::random shapes of rank 1-4; seeds up to u64::MAX) plus enumeration of generator states (quick: 2^16 lowest + 2^16 highest + a seed-offset progression; thorough: all 2^31-2 states). Non-trivial: state within 2^16 of either end of the state space, or seed >= 2^32, or shuffle length >= 2, or tensor with >= 2 entries. Distinct = (kind, state/seed, interval bits / length / shape).".into()
